@@ -118,11 +118,19 @@ func TestVerifRace(t *testing.T) {
 						fail("separator %q does not satisfy the separator recipe under concurrency", sp)
 					}
 				case 4:
-					for _, f := range h14Presets {
-						f()
+					for k, f := range h16Presets {
+						sp, _ := f.f()
+						if f.n > 0 && (len(strings.Split(sp, "")) != f.n || !strings.ContainsAny(f.set, sp[:1])) {
+							fail("preset %d returned %q under concurrency", k, sp)
+						}
 					}
 					s.wr.Entropy()
 					s.wl.Size()
+					pr := NewWLRecipe(3, s.wl)
+					pr.SeparatorFunc = SFDigits1
+					if pp, err := pr.Generate(); err != nil || len(pp.Tokens().Separators()) != 2 {
+						fail("a recipe separated by SFDigits1 lost separators under concurrency")
+					}
 				}
 			}
 		}(g)
